@@ -64,15 +64,35 @@ def helper_set(j):
             bodies.setdefault(b["path"], b)
     taken = address_taken(j)
     helpers = set()
+    # pub(crate) METHODS: the module interfaces the roles are anchored on are the ones that touch the anchor primitives
+    # themselves (the waker list's pop / push / register / constructor), call such a function directly (the drain, the push
+    # primitive) or call one of those directly (the vacating drain).  Any other pub(crate) method is a shared helper
+    # (`has_spare_capacity`, `buffered_size_hint`, `admit` ...) and is read through like a private one.
+    def direct_callees(b):
+        out = set()
+        for blk in b["blocks"]:
+            t = blk["term"]
+            if t["k"] in ("call", "tailcall"):
+                nm = _callee_name(t)
+                if nm:
+                    out.add(nm)
+                if t["func"]["k"] == "const" and "fn" in t["func"]:
+                    out.add(t["func"]["fn"].get("def", ""))
+        return out
+    callees = {p_: direct_callees(b_) for p_, b_ in bodies.items()}
+    lvl0 = {p_ for p_, cs in callees.items() if any(ANCHOR_PRIMS.search(c) for c in cs)}
+    lvl1 = {p_ for p_, cs in callees.items() if cs & lvl0}
+    lvl2 = {p_ for p_, cs in callees.items() if cs & lvl1}
+    interface = lvl0 | lvl1 | lvl2
     for path, b in bodies.items():
         f = fns.get(path)
         if f is None:
             continue
         private = f["vis"].startswith("in ")
         crate_free_fn = f["vis"] == "crate" and f.get("impl") is None and not f.get("effective_pub")
-        if not (private or crate_free_fn):
-            continue           # pub items and pub(crate) methods are module interfaces (roles are anchored on them);
-                               # a pub(crate) free function is a shared helper
+        crate_helper_method = f["vis"] == "crate" and f.get("impl") is not None and not f.get("effective_pub") and path not in interface
+        if not (private or crate_free_fn or crate_helper_method):
+            continue           # pub items and the pub(crate) interface methods keep their bodies (roles are anchored on them)
         if path.startswith("<"):
             continue           # trait impl method
         if "::_::" in path:
@@ -689,6 +709,308 @@ def expand_combinator(b, i, closures, stats):
     return True
 
 
+
+# ---------------------------------------------------------------------------------------------------------------
+# Higher-order helpers: a closure C that captures a callable which, at the place where C is built, is itself a closure
+# K of this crate (`try_push_at(q, fut, || claim_back(ctr))` with `|data| Wrapper { data, index: claim() }` inside the
+# inlined helper).  C is copied per construction site and the calls it makes through that capture become K's body, so
+# the copy reads like the closure a developer would have written by hand at that site.
+
+def _trace_capture(c, local):
+    """Follow plain moves / (re)borrows from `local` in closure body c back to a capture field: (*_1).k / *(*_1).k -> k."""
+    for _ in range(8):
+        s_ = _single_assign(c, local)
+        if s_ is None:
+            return None
+        rv = s_["rv"]
+        pl = None
+        if rv["k"] == "use" and rv["op"]["k"] in ("move", "copy"):
+            pl = rv["op"]["place"]
+        elif rv["k"] == "ref":
+            pl = rv["place"]
+        if pl is None:
+            return None
+        if pl["l"] == 1:
+            ks = [e for e in pl["p"] if e["k"] == "field"]
+            if len(ks) == 1 and all(e["k"] in ("deref", "field") for e in pl["p"]):
+                return ks[0]["i"]
+            return None
+        if [e["k"] for e in pl["p"]] in ([], ["deref"]):
+            local = pl["l"]
+        else:
+            return None
+    return None
+
+
+def _inline_known_closure_call(c, i, kbody, stats):
+    """In closure body c, block i calls through a capture that is known to be closure kbody: splice kbody in (self
+    parameter := the call's own receiver operand)."""
+    blk = c["blocks"][i]
+    t = blk["term"]
+    if t["target"] is None or len(t["args"]) != 2 or len(c["blocks"]) + len(kbody["blocks"]) + 4 > MAX_BLOCKS:
+        return False
+    span = t["span"]
+    dest, target, tup = t["dest"], t["target"], t["args"][1]
+    loff = len(c["locals"])
+    c["locals"].extend(kbody["locals"])
+
+    def assign(place, rv):
+        return {"k": "assign", "place": copy.deepcopy(place), "rv": rv, "span": span}
+    pre = [assign({"l": loff + 1, "p": [], "ty": kbody["locals"][1]}, {"k": "use", "op": copy.deepcopy(t["args"][0])})]
+    for k in range(2, kbody["arg_count"] + 1):
+        if tup["k"] not in ("move", "copy"):
+            return False
+        fld = {"l": tup["place"]["l"], "p": list(tup["place"]["p"]) + [{"k": "field", "i": k - 2, "name": str(k - 2), "ty": kbody["locals"][k]}], "ty": kbody["locals"][k]}
+        pre.append(assign({"l": loff + k, "p": [], "ty": kbody["locals"][k]}, {"k": "use", "op": {"k": "move", "place": fld}}))
+    blk["stmts"].extend(pre)
+    boff = len(c["blocks"])
+    direct = not dest["p"]
+    for cblk in kbody["blocks"]:
+        nb = copy.deepcopy(cblk)
+        _remap_block(nb, loff, boff)
+        if direct:
+            _subst_local(nb, loff, dest["l"])
+        ct = nb["term"]
+        if ct["k"] == "return":
+            if not direct:
+                nb["stmts"].append(assign(dest, {"k": "use", "op": {"k": "move", "place": {"l": loff, "p": [], "ty": kbody["locals"][0]}}}))
+            nb["term"] = {"k": "goto", "target": target, "span": ct["span"]}
+        c["blocks"].append(nb)
+    blk["term"] = {"k": "goto", "target": boff, "span": span, "inlined": "captured closure " + kbody["path"]}
+    stats[kbody["path"]] = stats.get(kbody["path"], 0) + 1
+    return True
+
+
+
+def _trace_const_capture(f, local):
+    """The capture operand `local` of body f is (a borrow / copy of) a local whose only definition is a field-less enum variant
+    or a constant: (rvalue json, value type).  Else None."""
+    for _ in range(8):
+        s_ = _single_assign(f, local)
+        if s_ is None:
+            return None
+        rv = s_["rv"]
+        if rv["k"] == "aggregate" and rv.get("agg") == "adt" and not rv.get("ops"):
+            return copy.deepcopy(rv), s_["place"]["ty"]
+        if rv["k"] == "use" and rv["op"]["k"] == "const":
+            return copy.deepcopy(rv), s_["place"]["ty"]
+        if rv["k"] == "use" and rv["op"]["k"] in ("move", "copy") and not rv["op"]["place"]["p"]:
+            local = rv["op"]["place"]["l"]
+        elif rv["k"] == "ref" and not rv["place"]["p"]:
+            local = rv["place"]["l"]
+        else:
+            return None
+    return None
+
+
+def _rewrite_capture_reads(c, k, new_local):
+    """Every place of closure body c that starts with (*_1).k is re-rooted at new_local."""
+    def fix(p):
+        if p["l"] == 1 and len(p["p"]) >= 2 and p["p"][0]["k"] == "deref" and p["p"][1]["k"] == "field" and p["p"][1]["i"] == k:
+            p["l"] = new_local
+            p["p"] = p["p"][2:]
+
+    def op(o):
+        if o["k"] in ("copy", "move"):
+            fix(o["place"])
+
+    def rv(r):
+        kk = r["k"]
+        if kk in ("use", "cast", "repeat"):
+            op(r["op"])
+        elif kk in ("ref", "rawptr", "discr"):
+            fix(r["place"])
+        elif kk == "binop":
+            op(r["a"])
+            op(r["b"])
+        elif kk == "unop":
+            op(r["op"] if "op" in r and isinstance(r["op"], dict) else r.get("a", {"k": "const"}))
+        elif kk == "aggregate":
+            for o in r["ops"]:
+                op(o)
+    for blk in c["blocks"]:
+        for s_ in blk["stmts"]:
+            if s_["k"] == "assign":
+                fix(s_["place"])
+                rv(s_["rv"])
+        t = blk["term"]
+        if t["k"] in ("call", "tailcall"):
+            for a in t["args"]:
+                op(a)
+            if "dest" in t:
+                fix(t["dest"])
+        elif t["k"] == "switch":
+            op(t["discr"])
+        elif t["k"] == "drop":
+            fix(t["place"])
+
+
+def _fold_known_switches(c):
+    """switch on the discriminant of a local that is (a copy of / a read through a borrow of) a local built as a known field-less
+    variant: the terminator becomes a goto to the arm of that variant."""
+    def variant_of(local, depth=0):
+        if depth > 8:
+            return None
+        s_ = _single_assign(c, local)
+        if s_ is None:
+            return None
+        rv = s_["rv"]
+        if rv["k"] == "aggregate" and rv.get("agg") == "adt" and not rv.get("ops"):
+            return rv["variant"]
+        if rv["k"] == "use" and rv["op"]["k"] in ("move", "copy"):
+            pl = rv["op"]["place"]
+            if not pl["p"]:
+                return variant_of(pl["l"], depth + 1)
+            if [e["k"] for e in pl["p"]] == ["deref"]:
+                # read through a reference: the reference's own definition
+                r_ = _single_assign(c, pl["l"])
+                while r_ is not None and r_["rv"]["k"] == "use" and r_["rv"]["op"]["k"] in ("move", "copy") and not r_["rv"]["op"]["place"]["p"]:
+                    r_ = _single_assign(c, r_["rv"]["op"]["place"]["l"])
+                if r_ is not None and r_["rv"]["k"] == "ref" and not r_["rv"]["place"]["p"]:
+                    return variant_of(r_["rv"]["place"]["l"], depth + 1)
+        return None
+    n = 0
+    for blk in c["blocks"]:
+        t = blk["term"]
+        if t["k"] != "switch" or t["discr"]["k"] not in ("move", "copy") or t["discr"]["place"]["p"]:
+            continue
+        d = _single_assign(c, t["discr"]["place"]["l"])
+        if d is None or d["rv"]["k"] != "discr" or d["rv"]["place"]["p"]:
+            continue
+        v = variant_of(d["rv"]["place"]["l"])
+        if v is None:
+            continue
+        val = [x[0] for x in d["rv"]["variants"] if x[1] == v]
+        if not val:
+            continue
+        tgt = None
+        for tv, tb in t["targets"]:
+            if str(tv) == str(val[0]):
+                tgt = tb
+        if tgt is None:
+            tgt = t["otherwise"]
+        blk["term"] = {"k": "goto", "target": tgt, "span": t["span"], "folded": "discriminant known: " + v}
+        n += 1
+    return n
+
+
+
+def _succs_json(t):
+    out = []
+    for key in ("target", "unwind", "otherwise", "real_target", "cleanup"):
+        v = t.get(key)
+        if isinstance(v, int):
+            out.append(v)
+    for tv in t.get("targets", []) or []:
+        if isinstance(tv, (list, tuple)) and len(tv) == 2 and isinstance(tv[1], int):
+            out.append(tv[1])
+        elif isinstance(tv, int):
+            out.append(tv)
+    return out
+
+
+def _prune_unreachable(c):
+    """Blocks no longer reachable from the entry (after a switch was folded) lose their statements: the definitions they held
+    must not count as definitions of the locals any more."""
+    seen = set()
+    work = [0]
+    while work:
+        x = work.pop()
+        if x in seen or x >= len(c["blocks"]):
+            continue
+        seen.add(x)
+        work.extend(_succs_json(c["blocks"][x]["term"]))
+    for i, blk in enumerate(c["blocks"]):
+        if i not in seen:
+            blk["stmts"] = []
+            blk["term"] = {"k": "unreachable", "span": blk["term"]["span"]}
+
+
+def specialise_closures(j, helpers, helper_bodies):
+    """See above.  Returns {original closure path: number of specialised copies}."""
+    closures = {}
+    for b in j["bodies"]:
+        if b["kind"] == "Closure" and b["promoted"] is None:
+            closures.setdefault(b["path"], b)
+    originals = {p: copy.deepcopy(b) for p, b in closures.items()}
+    made = {}
+    stats = {}
+    new_bodies = []
+    for f in list(j["bodies"]):
+        if f["kind"] not in ("Fn", "AssocFn", "Closure") or f["promoted"] is not None:
+            continue
+        for blk in f["blocks"]:
+            for s_ in blk["stmts"]:
+                rv = s_.get("rv") if s_["k"] == "assign" else None
+                if not (rv and rv["k"] == "aggregate" and rv.get("agg") == "closure" and rv["closure"] in originals):
+                    continue
+                cpath = rv["closure"]
+                known = {}
+                for k, o in enumerate(rv["ops"]):
+                    if o["k"] in ("move", "copy") and not o["place"]["p"]:
+                        kl = _trace_closure_local(f, o["place"]["l"])
+                        cd = _closure_def(f, kl) if kl is not None else None
+                        if cd is not None and cd[0] in originals and cd[0] != cpath:
+                            known[k] = cd[0]
+                consts = {}
+                for k, o in enumerate(rv["ops"]):
+                    if k not in known and o["k"] in ("move", "copy") and not o["place"]["p"]:
+                        tc = _trace_const_capture(f, o["place"]["l"])
+                        if tc is not None:
+                            consts[k] = (tc[0], tc[1], o["place"]["ty"])
+                if not known and not consts:
+                    continue
+                c = copy.deepcopy(originals[cpath])
+                hit = False
+                for k, (crv, vty, capty) in consts.items():
+                    nl = len(c["locals"])
+                    c["locals"].append(vty)
+                    pre = [{"k": "assign", "place": {"l": nl, "p": [], "ty": vty}, "rv": crv, "span": c["blocks"][0]["term"]["span"]}]
+                    root = nl
+                    if capty.startswith("&"):
+                        c["locals"].append(capty)
+                        pre.append({"k": "assign", "place": {"l": nl + 1, "p": [], "ty": capty},
+                                    "rv": {"k": "ref", "mut": capty.startswith("&mut"), "place": {"l": nl, "p": [], "ty": vty}},
+                                    "span": c["blocks"][0]["term"]["span"]})
+                        root = nl + 1
+                    _rewrite_capture_reads(c, k, root)
+                    c["blocks"][0]["stmts"] = pre + c["blocks"][0]["stmts"]
+                if consts and _fold_known_switches(c):
+                    _prune_unreachable(c)
+                    hit = True
+                changed = True
+                rounds = 0
+                while changed and rounds < 4:
+                    changed = False
+                    rounds += 1
+                    for i in range(len(c["blocks"])):
+                        t = c["blocks"][i]["term"]
+                        if t["k"] != "call" or c["blocks"][i]["cleanup"]:
+                            continue
+                        fn = t["func"]
+                        if not (fn["k"] == "const" and "fn" in fn and fn["fn"].get("def") in (
+                                "core::ops::FnOnce::call_once", "core::ops::FnMut::call_mut", "core::ops::Fn::call")):
+                            continue
+                        a0 = t["args"][0] if t["args"] else None
+                        if not (a0 and a0["k"] in ("move", "copy") and not a0["place"]["p"]):
+                            continue
+                        k = _trace_capture(c, a0["place"]["l"])
+                        if k in known and _inline_known_closure_call(c, i, originals[known[k]], stats):
+                            hit = changed = True
+                if not hit:
+                    continue
+                # helper calls that came in with K's body (K's own private helpers)
+                inline_body(c, helpers, helper_bodies, {})
+                made[cpath] = made.get(cpath, 0) + 1
+                c["path"] = "%s@%s#%d" % (cpath, f["path"], made[cpath])
+                c["parent_fn"] = f["path"]
+                c["specialised_from"] = cpath
+                rv["closure"] = c["path"]
+                new_bodies.append(c)
+    j["bodies"].extend(new_bodies)
+    return made, stats
+
+
 def expand_combinators(j):
     """Expand std-combinator calls taking a crate closure in every function body.  Returns
     {closure path: number of expanded call sites}."""
@@ -732,6 +1054,21 @@ def expand_combinators(j):
     return stats, fully
 
 
+def _only_captured(j, cpath):
+    """Every value of closure cpath is only ever captured by specialised closures (never passed to a call)."""
+    for b in j["bodies"]:
+        for blk in b["blocks"]:
+            t = blk["term"]
+            if t["k"] in ("call", "tailcall"):
+                for a in t["args"]:
+                    if a["k"] in ("move", "copy") and not a["place"]["p"]:
+                        kl = _trace_closure_local(b, a["place"]["l"])
+                        cd = _closure_def(b, kl) if kl is not None else None
+                        if cd and cd[0] == cpath:
+                            return False
+    return True
+
+
 def inline_facts(j):
     """Inline helper calls in all function bodies of the fact JSON (in place).  Returns (helpers, stats)."""
     helpers, bodies = helper_set(j)
@@ -750,7 +1087,22 @@ def inline_facts(j):
                 if nm in helpers and b["path"] not in helpers:
                     remaining.add(nm)
     fully = sorted(h for h in helpers if h in stats and h not in remaining)
+    made, kstats = specialise_closures(j, helpers, originals)
+    # a closure every construction of which was replaced by a specialised copy is no longer built anywhere
+    still_built = set()
+    for b in j["bodies"]:
+        if b["path"] in fully:
+            continue          # a helper that only lives on inside its callers
+        for blk in b["blocks"]:
+            for s_ in blk["stmts"]:
+                if s_["k"] == "assign" and s_["rv"]["k"] == "aggregate" and s_["rv"].get("agg") == "closure":
+                    still_built.add(s_["rv"]["closure"])
+    fully += sorted(p for p in made if p not in still_built)
     cstats, cfully = expand_combinators(j)
+    for p_, n_ in kstats.items():
+        cstats[p_] = cstats.get(p_, 0) + n_
+    # closures that were spliced into specialised copies and are not handed to anything else
+    cfully = sorted(set(cfully) | {p_ for p_ in kstats if p_ in still_built and _only_captured(j, p_)})
     j["inlined_helpers"] = {"helpers": sorted(helpers), "call_sites_inlined": stats, "fully_inlined": fully + cfully,
                             "combinator_closures": cstats}
     return helpers, stats
